@@ -154,6 +154,12 @@ def directed():
         {"tls": True, "cls": "bare", "inject": 1, "T": 2, "t0": 0, "passes": [P(0, "idle"), P(1, "idle"), P(1, "idle")]},
         {"tls": False, "cls": "bare", "inject": 2, "T": 7, "t0": 0, "passes": [P(0, "idle"), P(5, "idle"), [0, ["wind"], 0], P(6, "idle"),
                                                                             P(1, "idle")]},
+        # the peer reset the idle connection (getpeername/shutdown of the socket raise): still closed at the tymeout, nothing
+        # escapes service() (seeded change C12-15 witness)
+        {"tls": False, "T": 3, "t0": 0, "peer_reset": True, "passes": [P(0, "idle"), P(2, "idle"), P(1, "idle"), P(1, "idle")]},
+        {"tls": True, "T": 2, "t0": 5, "peer_reset": True, "passes": [P(0, "rx", 1), P(1, "idle"), P(1, "idle"), P(1, "idle")]},
+        {"tls": False, "T": 3, "t0": 0, "peer_reset": True, "cls": "bare", "passes": [P(0, "idle"), P(3, "idle"), P(1, "idle")]},
+        {"tls": False, "T": 2, "t0": 0, "peer_reset": True, "passes": [P(0, "reqdefer", 1, NEVER), P(2, "idle"), P(1, "idle")]},
         # client keeps sending while the response is stuck: that is traffic
         {"tls": False, "T": 3, "t0": 0, "passes": [P(0, "reqclose", 1, cap=0), P(2, "rx", 1, cap=0), P(2, "rx", 1, cap=0),
                                                     P(2, "idle", cap=0), P(1, "idle", cap=0)]},
@@ -226,7 +232,8 @@ def generate(rng, tier):
                 last = now
             passes.append([dt, a, c])
         out.append({"tls": tls, "T": T, "t0": t0, "passes": passes, "unit": rng.choice([1.0, 1.0, 0.25, 0.03125, 8.0]),
-                    "hdrs": rng.choice([0] + list(range(1, 61))), "inject": rng.choice([0, 0, 1, 1, 2])})
+                    "hdrs": rng.choice([0] + list(range(1, 61))), "inject": rng.choice([0, 0, 1, 1, 2]),
+                    "peer_reset": rng.random() < 0.3})
         if rng.random() < 0.2:      # http.BareServer: its request handling is not modelled, so unfinished requests only
             out[-1]["cls"] = "bare"
             out[-1]["passes"] = [[dt, ["rx", a[1]] if a[0] in ("req", "reqclose", "reqdefer") else a, c]
@@ -410,12 +417,20 @@ def run_impl(case):
             elif core.closes == 0:
                 core.chunks.extend(chunks)
             sent_before = len(core.sent) if core is not None else 0
-            srv.service()
+            raised = None
+            try:
+                srv.service()
+            except Exception as ex:      # nothing may escape a service pass; reported by the oracle
+                raised = f"{type(ex).__name__}: {ex}"
             if core is None:
                 ix = servant.ixes.get(ca)
                 if ix is None:
                     raise AssertionError("connection was not accepted in the first pass")
                 core = ix.cs.core
+                if case.get("peer_reset"):
+                    # the peer resets the connection while it is idle: from now on getpeername() and shutdown() of the
+                    # server side socket raise ENOTCONN / ECONNABORTED (nothing in servicing may depend on them)
+                    core.badpeer = "gone"
             closed = core.closes > 0
             if closed != (ca not in servant.ixes):
                 raise AssertionError("socket closed but connection still listed (or the reverse)")
@@ -427,7 +442,7 @@ def run_impl(case):
             out.append({"closed": closed, "tmo": _as_int(ix.tymeout / u), "st": _as_int(ix.tymer._start / u),
                         "sp": _as_int(ix.tymer._stop / u), "pend": 0 if closed else len(ix.txbs),
                         "sent": len(core.sent) - sent_before, "now": _as_int(tymist.tyme / u),
-                        "inprog": (not closed) and ca in reps and not reps[ca].ended})
+                        "inprog": (not closed) and ca in reps and not reps[ca].ended, "raised": raised})
         world.send_cap = None
         srv.close()
         leaked = world.open_ids()
@@ -477,6 +492,9 @@ def oracle(case, obs):
     T = case["T"]
     was_closed = False
     for i, ((must, may, last, pers), o) in enumerate(zip(_expect(case, obs), obs["passes"])):
+        if o.get("raised"):
+            return (f"pass {i} at tyme {o['now']}: Server.service() raised {o['raised']}; the connection is "
+                    f"{'closed' if o['closed'] else 'still open'} (bytes last moved at {last}, tymeout {T})")
         if must and not o["closed"]:
             return (f"pass {i} at tyme {o['now']}: non-persistent connection had no bytes moved since {last} "
                     f"(tymeout {T}, {obs['passes'][i - 1]['pend'] if i else 0} bytes pending) but is still open")
@@ -564,6 +582,7 @@ def shrink(case):
 def distribution(cases, obs):
     d = {"tls": sum(1 for c in cases if c["tls"]), "T<=0": sum(1 for c in cases if c["T"] <= 0),
          "closed": 0, "with_nonpersistent_response": 0, "with_blocked_send_while_pending": 0,
+         "peer_reset_while_idle": sum(1 for c in cases if c.get("peer_reset")),
          "bare_server": sum(1 for c in cases if c.get("cls") == "bare"),
          "with_injected_servant": sum(1 for c in cases if c.get("inject")),
          "with_header_variants": sum(1 for c in cases if c.get("hdrs")),
@@ -669,11 +688,45 @@ def _wound_later(T, tls, busy):
     return None
 
 
+def _reset_does_not_block_others(T, tls):
+    """Two idle connections, the first one reset by its peer (getpeername/shutdown raise): both are closed at their
+    tymeout, no exception escapes service()."""
+    from hio.core.http import serving as hserving
+    from hio.base import tyming
+    world = fk.World()
+    tymist = tyming.Tymist(tyme=0.0, tock=1.0)
+    with fk.patched(world):
+        kw = dict(port=world.port, host="127.0.0.1", tymeout=float(T), app=_app)
+        if tls:
+            kw.update(scheme="https", context=fk.FakeContext())
+        srv = hserving.Server(**kw)
+        srv.wind(tymist.tymen())
+        srv.reopen()
+        srv.servant.ss.core.queue.append([0, False, ["ok"], []])
+        srv.service()
+        a = srv.servant.ixes[fk.ca_of(0)].cs.core
+        a.badpeer = "gone"
+        tymist.tyme = 1.0
+        srv.servant.ss.core.queue.append([1, False, ["ok"], []])
+        srv.service()
+        b = srv.servant.ixes[fk.ca_of(1)].cs.core
+        for t in range(2, T + 4):
+            tymist.tyme = float(t)
+            srv.service()
+            if (a.closes > 0) != (t >= T):
+                return f"reset idle connection accepted at 0 is {'closed' if a.closes else 'open'} at tyme {t} (tymeout {T})"
+            if (b.closes > 0) != (t >= T + 1):
+                return f"idle connection accepted at 1 is {'closed' if b.closes else 'open'} at tyme {t} (tymeout {T})"
+        srv.close()
+    return None
+
+
 def extra(tier, ctx):
     n = 0
     for tls in (False, True):
         for f, args in ([(_unwound_round, (tls,))] + [(_two_connections, (T, tls)) for T in (2, 3, 5, 9)] +
-                        [(_wound_later, (T, tls, b)) for T in (2, 5) for b in (False, True)]):
+                        [(_wound_later, (T, tls, b)) for T in (2, 5) for b in (False, True)] +
+                        [(_reset_does_not_block_others, (T, tls)) for T in (2, 4)]):
             try:
                 why = f(*args)
             except Exception as ex:
